@@ -1,10 +1,12 @@
 use crate::PropDef;
 
 pub mod pairs;
+pub mod sessgen;
 
 pub mod c03;
 pub mod c04;
 pub mod c05;
+pub mod c06;
 pub mod c11;
 pub mod c12;
 pub mod c13;
@@ -22,6 +24,7 @@ pub fn all() -> Vec<PropDef> {
         c03::def(),
         c04::def(),
         c05::def(),
+        c06::def(),
         c11::def(),
         c12::def(),
         c13::def(),
